@@ -6,19 +6,22 @@
 From Orbit Require Import Model.Lifecycle Proofs.LifecycleProofs.
 
 (** After Close (repaired tree: the progress consumer drains, Close ends the legacy
-    subscriptions), whatever background activities the store had started and whatever had
-    been raised before, every one of them has a raised signal in its wake set. *)
+    subscriptions, loads are bound to the store), in EVERY configuration of the store
+    (replicating or not, on disk or in memory, with or without MaxHistory), whatever background
+    activities that configuration can have started and whatever had been raised before, every
+    one of them has a raised signal in its wake set. *)
 Theorem C18_close_terminates :
-  forall acts raised a,
-    In a acts -> store_activity a = true ->
-    woken sw_fixed (st_raised (close sw_fixed (mkStore true acts raised))) a = true.
+  forall cfg acts raised a,
+    In a acts -> started_by cfg a = true ->
+    woken sw_fixed (st_raised (close sw_fixed (mkStore cfg true acts raised))) a = true.
 Proof. exact close_terminates. Qed.
 Print Assumptions C18_close_terminates.
 
-(** The same for the instance: all stores that were open and the direct-channel monitor. *)
+(** The same for the instance: all stores that were open, each with its own configuration,
+    and the direct-channel monitor. *)
 Theorem C18_instance_close_terminates :
   forall stores iacts raised,
-    (forall s, In s stores -> st_open s = true /\ forallb store_activity (st_acts s) = true) ->
+    (forall s, In s stores -> st_open s = true /\ forallb (started_by (st_cfg s)) (st_acts s) = true) ->
     (forall a, In a iacts -> a = AMonitorDirect) ->
     istuck sw_fixed (iclose sw_fixed (mkInst stores iacts raised)) = [].
 Proof. exact iclose_terminates. Qed.
@@ -28,13 +31,15 @@ Print Assumptions C18_instance_close_terminates.
     a replication worker whose block fetch succeeds after the cancellation, and the load
     request waiting for it, are woken by nothing Close raises ... *)
 Theorem C18_refuted_worker_stranded :
-  stuck sw_pinned (close sw_pinned (open_store (acts_at 11%N))) = [ASyncLoad; AReplWorkerDelivering].
+  forall cfg,
+    stuck sw_pinned (close sw_pinned (open_store cfg (acts_at cfg 11%N))) = [ASyncLoad; AReplWorkerDelivering].
 Proof. exact close_current_strands_delivering_worker. Qed.
 Print Assumptions C18_refuted_worker_stranded.
 
 (** ... and neither is a subscriber of the deprecated emitter interface. *)
 Theorem C18_refuted_legacy_subscriber_stranded :
-  stuck sw_pinned (close sw_pinned (open_store (acts_at 7%N))) = [ALegacySubscriber].
+  forall cfg,
+    stuck sw_pinned (close sw_pinned (open_store cfg (acts_at cfg 7%N))) = [ALegacySubscriber].
 Proof. exact close_current_strands_legacy_subscriber. Qed.
 Print Assumptions C18_refuted_legacy_subscriber_stranded.
 
@@ -77,20 +82,20 @@ Print Assumptions C18_refuted_stale_drop_deadlocks.
 
 (** Drop scope: two addresses with different roots whose paths have no ".." segment: neither
     cache directory equals or lies below the other, and every file of the one survives the
-    removal of the other. *)
+    removal of the other - in every configuration, whichever way Destroy removes. *)
 Theorem C18_drop_scope :
-  forall dir r1 p1 r2 p2,
+  forall sw cfg dir r1 p1 r2 p2,
     r1 <> r2 -> clean_path p1 = true -> clean_path p2 = true ->
-    drop_removes dir r1 p1 (datastore_key dir r2 p2) = false /\
-    drop_removes dir r2 p2 (datastore_key dir r1 p1) = false.
+    drop_removes sw cfg dir r1 p1 (datastore_key dir r2 p2) = false /\
+    drop_removes sw cfg dir r2 p2 (datastore_key dir r1 p1) = false.
 Proof. exact drop_scope. Qed.
 Print Assumptions C18_drop_scope.
 
 Theorem C18_drop_keeps_sibling_files :
-  forall dir r1 p1 r2 p2 fs f,
+  forall sw cfg dir r1 p1 r2 p2 fs f,
     r1 <> r2 -> no_dotdot p1 = true -> no_dotdot p2 = true ->
     In f fs -> is_prefix (datastore_key dir r2 p2) f = true ->
-    In f (destroy (datastore_key dir r1 p1) fs).
+    In f (destroy_cfg sw cfg (datastore_key dir r1 p1) fs).
 Proof. exact drop_keeps_sibling_files. Qed.
 Print Assumptions C18_drop_keeps_sibling_files.
 
@@ -98,12 +103,12 @@ Print Assumptions C18_drop_keeps_sibling_files.
     directory (and the printed form) of /orbitdb/r2/name, and dropping it removes every file
     of that other database.  Observed by the driver through Open and Drop. *)
 Theorem C18_refuted_dotdot_alias :
-  forall dir r1 r2 name fs f,
-    r1 <> r2 ->
+  forall cfg dir r1 r2 name fs f,
+    cf_memory cfg = false -> r1 <> r2 ->
     address_accepted sw_pinned [SDotDot; SNorm r2; SNorm name] = true /\
     datastore_key dir r1 [SDotDot; SNorm r2; SNorm name] = datastore_key dir r2 [SNorm name] /\
     (is_prefix (datastore_key dir r2 [SNorm name]) f = true ->
-     ~ In f (destroy (datastore_key dir r1 [SDotDot; SNorm r2; SNorm name]) fs)).
+     ~ In f (destroy_cfg sw_pinned cfg (datastore_key dir r1 [SDotDot; SNorm r2; SNorm name]) fs)).
 Proof. exact dotdot_alias_refutation. Qed.
 Print Assumptions C18_refuted_dotdot_alias.
 
@@ -112,3 +117,125 @@ Theorem C18_accepted_addresses_in_scope :
   forall p, address_accepted sw_fixed p = true -> no_dotdot p = true.
 Proof. exact accepted_fixed_no_dotdot. Qed.
 Print Assumptions C18_accepted_addresses_in_scope.
+
+(** ** Configurations (added with the widened driver) *)
+
+(** Whatever the switches and whatever else was raised, a replication worker waiting for a
+    slot or inside a block fetch is woken by the replicator's root context only, i.e. by
+    [Replicator().Stop()]: Close has to call it in every configuration ... *)
+Theorem C18_worker_needs_stop :
+  forall sw raised a,
+    a = AReplWorkerWaiting \/ a = AReplWorkerFetching ->
+    smem SigReplRootCtx raised = false -> woken sw raised a = false.
+Proof. exact worker_needs_stop. Qed.
+Print Assumptions C18_worker_needs_stop.
+
+(** ... because a store of every configuration can have such workers and load requests. *)
+Theorem C18_every_config_can_replicate :
+  forall cfg,
+    started_by cfg AReplWorkerWaiting = true /\ started_by cfg AReplWorkerFetching = true /\
+    started_by cfg ASyncLoad = true /\ started_by cfg ASnapshotLoad = true /\ started_by cfg AReplCtxBinder = true.
+Proof. exact every_config_can_replicate. Qed.
+Print Assumptions C18_every_config_can_replicate.
+
+(** At every moment the driver scripts, in every configuration, nothing is left after Close
+    on the repaired tree. *)
+Theorem C18_close_every_moment :
+  forall cfg w, stuck sw_fixed (close sw_fixed (open_store cfg (acts_at cfg w))) = [].
+Proof. exact close_fixed_every_moment. Qed.
+Print Assumptions C18_close_every_moment.
+
+(** The pinned tree: at the moments other than 7, 11 and 18 nothing is left either, in every
+    configuration (instance-level moments: two databases of any two configurations). *)
+Theorem C18_pinned_other_moments :
+  forall cfg cfg' w, In w [0; 1; 2; 3; 4; 5; 6; 8; 9; 10; 12; 13; 14; 15; 16; 17]%N ->
+    predicted_leaks sw_pinned [cfg; cfg'] w = [].
+Proof. exact close_current_other_moments. Qed.
+Print Assumptions C18_pinned_other_moments.
+
+(** Regression witness: a Load waiting for a block nobody provides runs under its caller's
+    context only; Close neither ends its goroutines nor makes it return. *)
+Theorem C18_refuted_stuck_load :
+  forall cfg,
+    stuck sw_pinned (close sw_pinned (open_store cfg (acts_at cfg 18%N))) = [ALoadHeads] /\
+    op_class sw_pinned OpInflightLoadStuck = 3%N /\ op_class sw_pinned OpInflightSnapshotStuck = 3%N.
+Proof. exact close_current_strands_stuck_load. Qed.
+Print Assumptions C18_refuted_stuck_load.
+
+(** An instance on ":memory:": Drop removes nothing from disk. *)
+Theorem C18_drop_memory_removes_nothing :
+  forall sw cfg dir r p fs k',
+    cf_memory cfg = true ->
+    destroy_cfg sw cfg (datastore_key dir r p) fs = fs /\ drop_removes sw cfg dir r p k' = false.
+Proof. exact drop_memory_removes_nothing. Qed.
+Print Assumptions C18_drop_memory_removes_nothing.
+
+(** ** Databases that share a manifest root (/orbitdb/r/demo, /orbitdb/r/archive/demo, /orbitdb/r/demo/sub) *)
+
+(** The cache key - under which the cache manager keeps its table of open caches, and which is
+    the directory on disk - is injective on (root, full path). *)
+Theorem C18_cache_key_injective :
+  forall dir r1 p1 r2 p2,
+    no_dotdot p1 = true -> no_dotdot p2 = true ->
+    datastore_key dir r1 p1 = datastore_key dir r2 p2 -> r1 = r2 /\ names p1 = names p2.
+Proof. exact cache_key_injective. Qed.
+Print Assumptions C18_cache_key_injective.
+
+(** Closing one database leaves the cache of every other database of the instance open. *)
+Theorem C18_close_keeps_sibling_cache :
+  forall dir r1 p1 r2 p2,
+    no_dotdot p1 = true -> no_dotdot p2 = true ->
+    (r1 <> r2 \/ names p1 <> names p2) ->
+    shares_cache dir r1 p1 r2 p2 = false /\ write_after_sibling_close dir r1 p1 r2 p2 = Ok RDone.
+Proof. exact close_keeps_sibling_cache. Qed.
+Print Assumptions C18_close_keeps_sibling_cache.
+
+(** Same root, paths that do not extend one another (same last segment, different full path):
+    out of each other's reach whichever way Destroy removes. *)
+Theorem C18_drop_scope_same_root_not_nested :
+  forall sw cfg dir r p1 p2,
+    no_dotdot p1 = true -> no_dotdot p2 = true ->
+    is_prefix (names p1) (names p2) = false -> is_prefix (names p2) (names p1) = false ->
+    drop_removes sw cfg dir r p1 (datastore_key dir r p2) = false /\
+    drop_removes sw cfg dir r p2 (datastore_key dir r p1) = false.
+Proof. exact drop_scope_same_root_not_nested. Qed.
+Print Assumptions C18_drop_scope_same_root_not_nested.
+
+(** Regression witness (pinned tree, on disk): the cache directory of /orbitdb/r/x/y lies inside
+    the one of /orbitdb/r/x, and Drop of /orbitdb/r/x removes it with every file in it. *)
+Theorem C18_refuted_nested_drop :
+  forall cfg dir r x y fs f,
+    cf_memory cfg = false ->
+    drop_removes sw_pinned cfg dir r [SNorm x] (datastore_key dir r [SNorm x; SNorm y]) = true /\
+    (is_prefix (datastore_key dir r [SNorm x; SNorm y]) f = true ->
+     ~ In f (destroy_cfg sw_pinned cfg (datastore_key dir r [SNorm x]) fs)).
+Proof. exact drop_same_root_nested. Qed.
+Print Assumptions C18_refuted_nested_drop.
+
+(** Repaired tree: ANY two different databases - same root or not, nested or not - are out of
+    each other's reach: Drop of the one removes neither the directory nor a file of the other,
+    and removes every file of its own. *)
+Theorem C18_drop_scope_any_two :
+  forall cfg dir r1 p1 r2 p2,
+    no_dotdot p1 = true -> no_dotdot p2 = true ->
+    (r1 <> r2 \/ names p1 <> names p2) ->
+    drop_removes sw_fixed cfg dir r1 p1 (datastore_key dir r2 p2) = false /\
+    drop_removes sw_fixed cfg dir r2 p2 (datastore_key dir r1 p1) = false.
+Proof. exact drop_scope_any_two. Qed.
+Print Assumptions C18_drop_scope_any_two.
+
+Theorem C18_drop_any_two_keeps_files :
+  forall cfg dir r1 p1 r2 p2 fs f,
+    no_dotdot p1 = true -> no_dotdot p2 = true ->
+    (r1 <> r2 \/ names p1 <> names p2) ->
+    In f fs -> is_child (datastore_key dir r2 p2) f = true ->
+    In f (destroy_cfg sw_fixed cfg (datastore_key dir r1 p1) fs).
+Proof. exact drop_any_two_keeps_files. Qed.
+Print Assumptions C18_drop_any_two_keeps_files.
+
+Theorem C18_drop_removes_own_files :
+  forall sw cfg dir r p fs f,
+    cf_memory cfg = false ->
+    is_child (datastore_key dir r p) f = true -> ~ In f (destroy_cfg sw cfg (datastore_key dir r p) fs).
+Proof. exact drop_removes_own_files_cfg. Qed.
+Print Assumptions C18_drop_removes_own_files.
